@@ -42,7 +42,8 @@ def make_executor_classes(sim):
             if max_workers is not None and max_workers <= 0:
                 raise ValueError("max_workers must be greater than 0")
             self._pool = SimPool(max_workers, initializer, initargs, max_tasks_per_child, None,
-                                 sim=sim, use_pickle=self._use_pickle)
+                                 sim=sim, use_pickle=self._use_pickle,
+                                 daemonic_workers=False)      # executor workers may have children
             self._shutdown = False
             sim.stats['executors'] += 1
 
